@@ -697,3 +697,139 @@ func (c *Ctx) ruleNextHopValidity(rule string) {
 		r.Bad(rule, fk, "NEXT_HOP tests", c.P.InstrPos(target.Instrs[0]), strings.Join(bad, "; "))
 	}
 }
+
+// ruleLocalIDStable: a replacing path keeps the local path identifier of the path it replaces.
+func (c *Ctx) ruleLocalIDStable(rule string) {
+	r := c.R
+	r.Rule(rule, "stable local path identifiers: in destination.implicitWithdraw, on every path that returns the replaced route, the new path's localID has been assigned the replaced path's localID — the identifier under which ADD-PATH peers know the route does not change when its source re-announces it", 1)
+	fn := c.P.Func("(*internal/pkg/table.destination).implicitWithdraw")
+	if fn == nil {
+		r.Undec(rule, "-", "anchor:implicitWithdraw", "-", "not found")
+		return
+	}
+	fk := ir.FuncKey(fn)
+	var newPath *ssa.Parameter
+	for _, p := range fn.Params {
+		if p.Name() == "newPath" {
+			newPath = p
+		}
+	}
+	if newPath == nil && len(fn.Params) > 0 {
+		newPath = fn.Params[len(fn.Params)-1]
+	}
+	var stores []*ssa.Store
+	walk := func(f *ssa.Function) {
+		for _, b := range f.Blocks {
+			for _, in := range b.Instrs {
+				st, ok := in.(*ssa.Store)
+				if !ok {
+					continue
+				}
+				fa, ok := st.Addr.(*ssa.FieldAddr)
+				if !ok || fieldOfName(fa) != "localID" {
+					continue
+				}
+				base := fa.X
+				if u, ok := base.(*ssa.UnOp); ok { // captured by a closure
+					if fv, ok := u.X.(*ssa.FreeVar); ok && fv.Name() == newPath.Name() {
+						base = newPath
+					}
+				}
+				if base == ssa.Value(newPath) && fieldLoadName(st.Val) == "localID" {
+					stores = append(stores, st)
+				}
+			}
+		}
+	}
+	walk(fn)
+	for _, an := range fn.AnonFuncs {
+		walk(an)
+	}
+	// non-nil returns
+	n := 0
+	for _, b := range fn.Blocks {
+		ret, ok := b.Instrs[len(b.Instrs)-1].(*ssa.Return)
+		if !ok || isNilConst(ret.Results[0]) {
+			continue
+		}
+		n++
+		ok2 := false
+		for _, st := range stores {
+			if st.Parent() != fn || st.Block() == b || st.Block().Dominates(b) || reaches(st.Block(), b) && mustPassBlock(fn, st.Block(), b) {
+				ok2 = true
+			}
+		}
+		if !ok2 {
+			// "found" idiom: the return is guarded by found != -1, and found only becomes ≠ -1 in blocks that performed the store
+			for _, g := range fn.Blocks {
+				iff, ok := g.Instrs[len(g.Instrs)-1].(*ssa.If)
+				if !ok || !g.Dominates(b) {
+					continue
+				}
+				bo, ok := iff.Cond.(*ssa.BinOp)
+				if !ok || bo.Op != token.NEQ && bo.Op != token.EQL {
+					continue
+				}
+				phi, isPhi := bo.X.(*ssa.Phi)
+				k, isK := bo.Y.(*ssa.Const)
+				if !isPhi || !isK || k.Value == nil || k.Value.String() != "-1" {
+					continue
+				}
+				edge := 0
+				if bo.Op == token.EQL {
+					edge = 1
+				}
+				if !edgeDominates(g, edge, b) {
+					continue
+				}
+				all := true
+				for i, e := range phi.Edges {
+					if ke, ok := e.(*ssa.Const); ok && ke.Value != nil && ke.Value.String() == "-1" {
+						continue
+					}
+					pred := phi.Block().Preds[i]
+					has := false
+					for _, st := range stores {
+						if st.Parent() == fn && (st.Block() == pred || st.Block().Dominates(pred)) {
+							has = true
+						}
+					}
+					if !has {
+						all = false
+					}
+				}
+				if all {
+					ok2 = true
+				}
+			}
+		}
+		cons := fmt.Sprintf("return of the replaced path #%d", n)
+		if ok2 {
+			r.Ok(rule, fk, cons, c.P.InstrPos(ret), "newPath.localID = replaced.localID on the way")
+		} else {
+			r.Bad(rule, fk, cons, c.P.InstrPos(ret), "the replaced route is returned but the new path did not inherit its local identifier: the re-announced route gets a fresh identifier, so ADD-PATH peers keep the old version under the old identifier (or the new one is held back by send-max)")
+		}
+	}
+	if n == 0 {
+		r.Bad(rule, fk, "return of the replaced path", c.P.Pos(fn.Pos()), "implicitWithdraw never returns a replaced path")
+	}
+}
+
+// mustPassBlock: every path from the entry to target passes through via.
+func mustPassBlock(fn *ssa.Function, via, target *ssa.BasicBlock) bool {
+	seen := map[*ssa.BasicBlock]bool{}
+	work := []*ssa.BasicBlock{fn.Blocks[0]}
+	for len(work) > 0 {
+		b := work[0]
+		work = work[1:]
+		if seen[b] || b == via {
+			continue
+		}
+		seen[b] = true
+		if b == target {
+			return false
+		}
+		work = append(work, b.Succs...)
+	}
+	return true
+}
